@@ -4,6 +4,7 @@ MRO, call resolution helpers, statement CFG with dominators.
 Pure standard library.  Nothing of the analysed package is imported or run.
 """
 import ast
+import json
 import hashlib
 import os
 import re
@@ -871,17 +872,49 @@ def resolve_local_call(fn, call):
         if f.id in m.functions:
             return m.functions[f.id]
         # a private helper imported from another module of the package
-        # (shared by two modules after a de-duplication)
+        # (shared by two modules after a de-duplication), or a function the
+        # reference tree does not have (introduced by a reorganisation)
         tgt = m.imports.get(f.id)
         if tgt and tgt.startswith(PKG + ".") and \
-                tgt.rsplit(".", 1)[1].startswith("_"):
+                _is_new_helper(tgt.rsplit(".", 1)[1]):
             modname, fname = tgt.rsplit(".", 1)
             om = m.repo.modules.get(modname)
             if om is not None and fname in om.functions:
                 m.repo.consulted.add(modname)
                 return om.functions[fname]
         return None
+    if isinstance(f, ast.Attribute) and isinstance(f.value, (ast.Name,
+                                                             ast.Attribute)):
+        # <module alias>.<new helper>(...)
+        tgt = m.resolve(dotted(f) or "") or ""
+        if tgt.startswith(PKG + ".") and "." in tgt and \
+                _is_new_helper(f.attr):
+            modname, fname = tgt.rsplit(".", 1)
+            om = m.repo.modules.get(modname)
+            if om is not None and fname in om.functions and \
+                    om.functions[fname].cls is None:
+                m.repo.consulted.add(modname)
+                return om.functions[fname]
     return None
+
+
+_VOCAB = None
+
+
+def _is_new_helper(name):
+    """Private, or not a name of the reference tree (ngslint/vocab.json)."""
+    global _VOCAB
+    if name.startswith("_"):
+        return True
+    if _VOCAB is None:
+        try:
+            with open(os.path.join(os.path.dirname(__file__),
+                                   "vocab.json")) as fh:
+                _VOCAB = set(json.load(fh))
+        except OSError:
+            _VOCAB = set()
+            return False
+    return bool(_VOCAB) and name not in _VOCAB
 
 
 def nodes_passing(fn, pred, depth=2):
@@ -1461,3 +1494,169 @@ def expand_attrs(expr, table, depth=3):
         if not changed[0]:
             break
     return expr
+
+
+# ---------------------------------------------------------------------
+# properties of other objects and struct sizes as expressions
+# ---------------------------------------------------------------------
+def _struct_format(module, e, depth=0):
+    """Format string of a struct.Struct(...) expression (possibly through a
+    module constant), else None."""
+    if isinstance(e, ast.Call) and (module.resolve(dotted(e.func) or "") or "") \
+            == "struct.Struct" and e.args and \
+            isinstance(e.args[0], ast.Constant) and \
+            isinstance(e.args[0].value, str):
+        return e.args[0].value
+    if isinstance(e, ast.Name) and depth < 3:
+        v = module.const(e.id)
+        if v is not None and v is not e:
+            return _struct_format(module, v, depth + 1)
+    return None
+
+
+def expand_properties(repo, module, expr, depth=3):
+    """expr in which
+      * `<obj>.<p>` is replaced by the returned expression of the property
+        <p> when exactly one class of the package defines a member of that
+        name, it is a property and its body is a single return (`self`
+        becomes <obj>);
+      * a name of a non-scalar module constant is replaced by its value;
+      * `<Struct>.size` and struct.calcsize(fmt) become integer constants.
+    The result is for recognition only (it is not type-checked)."""
+    import struct as _struct
+    props = repo.__dict__.setdefault("_prop_index", None)
+    if props is None:
+        props = {}
+        for m in repo.modules.values():
+            for c in m.classes.values():
+                for name, f in c.methods.items():
+                    props.setdefault(name, []).append(f)
+        repo.__dict__["_prop_index"] = props
+
+    for _ in range(depth):
+        changed = [False]
+
+        class R(ast.NodeTransformer):
+            def visit_Attribute(self, n):
+                n = self.generic_visit(n)
+                if not isinstance(n.ctx, ast.Load):
+                    return n
+                if n.attr == "size":
+                    fmt = _struct_format(module, n.value)
+                    if fmt is not None:
+                        try:
+                            changed[0] = True
+                            return ast.Constant(value=_struct.calcsize(fmt))
+                        except _struct.error:
+                            return n
+                owners = props.get(n.attr, [])
+                if len(owners) == 1 and any(
+                        "property" in norm(d)
+                        for d in owners[0].node.decorator_list):
+                    rets = [x for x in walk_local(owners[0].node)
+                            if isinstance(x, ast.Return) and
+                            x.value is not None]
+                    body = [s for s in owners[0].node.body
+                            if not (isinstance(s, ast.Expr) and
+                                    isinstance(s.value, ast.Constant))]
+                    if len(rets) == 1 and len(body) == 1:
+                        recv = n.value
+
+                        class S(ast.NodeTransformer):
+                            def visit_Name(self, x):
+                                if x.id == "self":
+                                    return _copy.deepcopy(recv)
+                                return x
+                        changed[0] = True
+                        return S().visit(_copy.deepcopy(rets[0].value))
+                return n
+
+            def visit_Call(self, n):
+                n = self.generic_visit(n)
+                if (module.resolve(dotted(n.func) or "") or "") == \
+                        "struct.calcsize" and n.args and \
+                        isinstance(n.args[0], ast.Constant):
+                    try:
+                        changed[0] = True
+                        return ast.Constant(
+                            value=_struct.calcsize(n.args[0].value))
+                    except (_struct.error, TypeError):
+                        return n
+                return n
+
+            def visit_Name(self, n):
+                if isinstance(n.ctx, ast.Load):
+                    v = None
+                    for mm in [module] + [m_ for m_ in repo.modules.values()
+                                          if m_ is not module]:
+                        if n.id in mm.constants and n.id.isupper():
+                            v = mm.const(n.id)
+                            home = mm
+                            break
+                    if v is not None and not isinstance(v, ast.Constant) and \
+                            len(norm(v)) < 80:
+                        changed[0] = True
+                        w = _copy.deepcopy(v)
+                        # struct sizes inside the constant's own module
+                        if isinstance(w, ast.Attribute) and w.attr == "size":
+                            fmt = _struct_format(home, w.value)
+                            if fmt is not None:
+                                try:
+                                    return ast.Constant(
+                                        value=_struct.calcsize(fmt))
+                                except _struct.error:
+                                    pass
+                        return w
+                return n
+        expr = R().visit(_copy.deepcopy(expr))
+        ast.fix_missing_locations(expr)
+        if not changed[0]:
+            break
+    return expr
+
+
+def specialise(h, call, bound=False):
+    """A copy of the function h as this call runs it: parameters that the
+    call binds to constants (or leaves at constant defaults) are replaced by
+    those constants and the tests they decide are folded.  `bound`: the call
+    goes through an object (drop the receiver parameter unless h is a
+    staticmethod).  Returns a Function view, or None when the arguments
+    cannot be lined up."""
+    a = h.node.args
+    names = [x.arg for x in a.posonlyargs + a.args]
+    static = any(norm(d) == "staticmethod" for d in h.node.decorator_list)
+    if bound and not static and names:
+        names = names[1:]
+    if any(isinstance(x, ast.Starred) for x in call.args) or \
+            len(call.args) > len(names) and a.vararg is None:
+        return None
+    consts = {}
+    all_names = [x.arg for x in a.posonlyargs + a.args]
+    defaults = dict(zip(all_names[len(all_names) - len(a.defaults):],
+                        a.defaults))
+    defaults.update({x.arg: d for x, d in zip(a.kwonlyargs, a.kw_defaults)
+                     if d is not None})
+    given = dict(zip(names, call.args))
+    given.update({k.arg: k.value for k in call.keywords if k.arg})
+    if any(k.arg is None for k in call.keywords):
+        defaults = {}           # **kwargs may bind anything
+    for p in names + [x.arg for x in a.kwonlyargs]:
+        v = given.get(p, defaults.get(p))
+        if isinstance(v, ast.Constant) and (isinstance(v.value, bool)
+                                            or v.value is None):
+            consts[p] = v.value
+    node = _copy.deepcopy(h.node)
+    pre = [ast.Assign(targets=[ast.Name(id=p, ctx=ast.Store())],
+                      value=ast.Constant(value=v)) for p, v in consts.items()]
+    # the parameter itself counts as a store in _fold_flag_bindings: rename
+    # the argument so that the binding is the only one
+    for x in node.args.posonlyargs + node.args.args + node.args.kwonlyargs:
+        if x.arg in consts:
+            x.arg = x.arg + "__arg"
+    node.body = pre + node.body
+    ast.fix_missing_locations(node)
+    _fold_flag_bindings(node)
+    ast.fix_missing_locations(node)
+    view = Function(h.module, h.qualname, node, cls=h.cls, parent=h.parent)
+    view.inlined_from = h
+    return view
